@@ -412,8 +412,72 @@ func (c *Ctx) fieldSources(fn *ssa.Function, dstType string, want map[string][]s
 	}
 }
 
+// fieldBases returns, for the loads of field typ.name that v is computed from, the base objects.
+func fieldBases(v ssa.Value, full string, seen map[ssa.Value]bool, depth int) []ssa.Value {
+	if v == nil || seen[v] || depth > 8 {
+		return nil
+	}
+	seen[v] = true
+	var out []ssa.Value
+	switch x := v.(type) {
+	case *ssa.Field:
+		if fieldOf(x) == full {
+			out = append(out, x.X)
+		}
+	case *ssa.UnOp:
+		if fa, ok := x.X.(*ssa.FieldAddr); ok && x.Op == token.MUL {
+			if fieldOf(fa) == full {
+				out = append(out, fa.X)
+			}
+		} else {
+			out = append(out, fieldBases(x.X, full, seen, depth+1)...)
+		}
+	case *ssa.Convert:
+		out = append(out, fieldBases(x.X, full, seen, depth+1)...)
+	case *ssa.ChangeType:
+		out = append(out, fieldBases(x.X, full, seen, depth+1)...)
+	case *ssa.BinOp:
+		out = append(out, fieldBases(x.X, full, seen, depth+1)...)
+		out = append(out, fieldBases(x.Y, full, seen, depth+1)...)
+	case *ssa.Call:
+		for _, a := range x.Call.Args {
+			out = append(out, fieldBases(a, full, seen, depth+1)...)
+		}
+	}
+	return out
+}
+
 func c05FieldMapping(c *Ctx) {
 	if fn := c.mustFn("tar"); fn != nil {
+		// the File whose attributes are encoded is the entry being packed (parameter f)
+		var fParam *ssa.Parameter
+		for _, p := range fn.Params {
+			if typeName(p.Type()) == "desync.File" {
+				fParam = p
+			}
+		}
+		n := 0
+		instrs(fn, func(_ *ssa.BasicBlock, _ int, ins ssa.Instruction) {
+			st, ok := ins.(*ssa.Store)
+			if !ok {
+				return
+			}
+			fa, ok := st.Addr.(*ssa.FieldAddr)
+			if !ok || !strings.HasPrefix(fieldOf(fa), "Format") || strings.HasPrefix(fieldOf(fa), "FormatHeader") || strings.HasPrefix(fieldOf(fa), "FormatGoodbye") {
+				return
+			}
+			for _, fld := range []string{"File.Uid", "File.Gid", "File.Mode", "File.ModTime", "File.LinkTarget", "File.DevMajor", "File.DevMinor", "File.Data"} {
+				for _, base := range fieldBases(st.Val, fld, map[ssa.Value]bool{}, 0) {
+					n++
+					if fParam == nil || !isParam(base, fParam) {
+						c.bad("tar:"+fieldOf(fa)+":same-file", st.Pos(), "%s is filled from %s of a different File object than the entry being packed", fieldOf(fa), fld)
+					}
+				}
+			}
+		})
+		if n > 0 {
+			c.ok("tar:attributes-of-the-packed-entry", fn.Pos(), "%d attribute reads, all from the entry being packed", n)
+		}
 		c.fieldSources(fn, "FormatEntry", map[string][]string{"UID": {"File.Uid"}, "GID": {"File.Gid"}, "Mode": {"File.Mode"}, "MTime": {"File.ModTime"}})
 		c.fieldSources(fn, "FormatSymlink", map[string][]string{"Target": {"File.LinkTarget"}})
 		c.fieldSources(fn, "FormatDevice", map[string][]string{"Major": {"File.DevMajor"}, "Minor": {"File.DevMinor"}})
